@@ -169,6 +169,9 @@ func main() {
 
 	if err := app.Run(os.Args); err != nil {
 		fmt.Fprint(os.Stderr, err)
+		// errors that are not cli.ExitCoder (usage errors such as unnecessary arguments, unknown flags,
+		// an invalid --massive-timeout, a failing write of the template) must not end with status 0.
+		os.Exit(exitCodeErrOpts)
 	}
 }
 
